@@ -253,3 +253,23 @@ Proof.
     simpl in *; unfold do_setattr, do_read, do_write, create, remove, rename; rewrite ?Hr;
     try (apply negb_true_iff in Hf; rewrite Hf); cm; reflexivity.
 Qed.
+
+(* ---------- stability levels (C07) ---------- *)
+(* the effect of a write does not depend on the stability level: unstable data is visible at once *)
+Theorem write_effect_independent_of_stability P s h off cnt st1 st2 d hi :
+  fst (step P s (CWrite h off cnt st1 d) hi) = fst (step P s (CWrite h off cnt st2 d) hi).
+Proof. simpl. unfold do_write. cm. Qed.
+
+Definition stable_rank (s : stable) : N := match s with Unstable => 0 | DataSync => 1 | FileSync => 2 end.
+(* the committed level reported is never weaker than the level requested *)
+Theorem committed_not_weaker P s h off cnt st d hi n c a :
+  snd (step P s (CWrite h off cnt st d) hi) = RWritten n c a -> stable_rank st <= stable_rank c.
+Proof.
+  simpl. unfold do_write. cm; intros [= _ <- _]; destruct st; simpl; try lia.
+  all: destruct (unstable_opt s); simpl; lia.
+Qed.
+(* with the unstable option off every write is reported FILE_SYNC *)
+Theorem option_off_file_sync P s h off cnt st d hi n c a :
+  unstable_opt s = false ->
+  snd (step P s (CWrite h off cnt st d) hi) = RWritten n c a -> c = FileSync.
+Proof. intros Hu. simpl. unfold do_write. rewrite Hu. cm; intros [= _ <- _]; reflexivity. Qed.
